@@ -10,7 +10,7 @@ class Spec:
         self.roots = []; self.opaque = []; self.retsites = []
         self.contracts = {}; self.loops = {}; self.loop_headers = {}
         self.pre = []; self.code = []; self.jobs = []; self.name = None; self.files = []
-        self.drop = []; self.replays = {}; self.top_contracts = []
+        self.drop = []; self.replays = {}; self.top_contracts = []; self.opaque_records = []
 
 def parse_spec(path, spec=None, top=True, seen=None):
     spec = spec or Spec(); seen = seen if seen is not None else set()
@@ -42,6 +42,8 @@ def parse_spec(path, spec=None, top=True, seen=None):
         elif kw == 'roots': spec.roots += rest.split()
         elif kw == 'opaque': spec.opaque += rest.split()
         elif kw == 'drop': spec.drop += rest.split()
+        elif kw == 'opaque_record':
+            if top: spec.opaque_records += rest.split()
         elif kw == 'retsites': spec.retsites += rest.split()
         elif kw == 'contract': cur = ('contract', rest.split()[0])
         elif kw == 'loop': cur = ('loop',) + tuple(rest.split()[:2])
@@ -175,6 +177,8 @@ class Unit:
     def rec_fields(self, rname):
         r = self.ix.records[rname]; em = self.em
         fs = []
+        if rname in self.spec.opaque_records:   # the unit never looks inside this record (any access is a compile error => exit 2)
+            return [(yast.T('prim', 'char'), 'y_opaque_record', None, None)]
         for b in r.get('bases', []):
             bn = strip_cv(b['type']['qualType']).split('::')[-1]
             fs.append((yast.T('rec', bn), '_base', None, None))
